@@ -65,7 +65,7 @@ type VerifState struct {
 	Msgs, MsgsAfterAppend []*pb.Message
 	StepsOnAdvance        []*pb.Message
 
-	ReadStates         int
+	ReadStates         []ReadState
 	UnconfirmedReads   int
 	PendingReadIndex   int
 	ReadOnlyOption     ReadOnlyOption
@@ -122,7 +122,7 @@ func (rn *RawNode) VerifState() VerifState {
 		Msgs: r.msgs, MsgsAfterAppend: r.msgsAfterAppend,
 		StepsOnAdvance: rn.stepsOnAdvance,
 
-		ReadStates:         len(r.readStates),
+		ReadStates:         r.readStates,
 		UnconfirmedReads:   len(r.readOnly.unconfirmedReads),
 		PendingReadIndex:   len(r.pendingReadIndexMessages),
 		ReadOnlyOption:     r.readOnly.option,
